@@ -73,6 +73,7 @@ TARGETS = {
     'style.property1': lambda s: rule_of(s, R.STYLE_RULE).style.getProperties(all=True)[1],
     'style.value0': lambda s: rule_of(s, R.STYLE_RULE).style.getProperties(all=True)[0].propertyValue,
     'style.value1.item': lambda s: rule_of(s, R.STYLE_RULE).style.getProperties(all=True)[1].propertyValue[0],
+    'style.value0.item': lambda s: rule_of(s, R.STYLE_RULE).style.getProperties(all=True)[0].propertyValue[0],
     'media': lambda s: rule_of(s, R.MEDIA_RULE),
     'media.media': lambda s: rule_of(s, R.MEDIA_RULE).media,
     'media.query0': lambda s: rule_of(s, R.MEDIA_RULE).media[0],
@@ -189,7 +190,10 @@ MUTATORS = {
                         ('propertyValue=', _set('propertyValue'), VALUE_TEXTS)],
     'style.property1': [('cssText=', _set('cssText'), PROPERTY_TEXTS), ('name=', _set('name'), NAMES), ('value=', _set('value'), VALUE_TEXTS), ('priority=', _set('priority'), PRIORITIES)],
     'style.value0': [('cssText=', _set('cssText'), VALUE_TEXTS)],
-    'style.value1.item': [('cssText=', _set('cssText'), ['2em', '1', '$$', '1px 2px', '', 'w', '1px;'])],
+    'style.value1.item': [('cssText=', _set('cssText'), ['2em', '1', '$$', '1px 2px', '', 'w', '1px;', '1e999px', '1 px'])],
+    # (a colour: the grammar of the function is one thing, the kinds of its parameters another - both are refusals)
+    'style.value0.item': [('cssText=', _set('cssText'), ['blue', '#fff', 'rgb(1,2,3)', 'rgba(10%,20%,30%,.5)', 'hsl(120,50%,50%)', 'rgb(1, 2%, 3)', 'rgb(10%, 20, 30)', 'rgba(1, 2, 3, 4%)',
+                                                         'hsl(120, 50, 50)', 'hsla(120, 50%, 50%, 10%)', '#12', 'rgb(1, 2', 'rgb(1,2,3,4)', '1px', '', '$$', 'blue green'])],
     'media': [('cssText=', _set('cssText'), MEDIA_RULE_TEXTS), ('media=', _set('media'), MEDIA_TEXTS), ('name=', _set('name'), ['n', '', None, 3]),
               ('insertRule(r,0)', lambda o, k: o.insertRule(_rules(k), 0), RULEKEYS), ('insertRule(r,9)', lambda o, k: o.insertRule(_rules(k), 9), ['st', 'cm']),
               ('insertRule(text)', lambda o, t: o.insertRule(t, 0), STYLE_RULE_TEXTS + ['@import "q";', '@page{z:w}']), ('add', lambda o, k: o.add(_rules(k)), RULEKEYS),
@@ -263,8 +267,16 @@ def _media(ml):
     return (ml.mediaText, ml.length, tuple(ml[i].mediaText for i in range(ml.length)), tuple(ml.item(i) for i in range(ml.length + 1)))
 
 
+_TYPED = ('type', 'value', 'dimension', 'uri', 'colorType', 'red', 'green', 'blue', 'alpha')
+
+
+def _items(p):
+    # the typed accessors of every item of the value (they have to tell what the text tells)
+    return tuple((type(v).__name__, v.cssText) + tuple(repr(getattr(v, k, None)) for k in _TYPED) for v in p.propertyValue)
+
+
 def _props(st):
-    return tuple((p.name, p.literalname, p.value, p.priority, p.parent is st) for p in st.getProperties(all=True))
+    return tuple((p.name, p.literalname, p.value, p.priority, p.parent is st, _items(p)) for p in st.getProperties(all=True))
 
 
 def call(s, target, mi, ai):
